@@ -21,6 +21,7 @@ import (
 	"sort"
 	"strings"
 	"sync"
+	"sync/atomic"
 	"time"
 	"unicode/utf8"
 
@@ -735,6 +736,214 @@ func descMix(sc Scenario) bool {
 	return empty && nonEmpty
 }
 
+
+// ---------------------------------------------------------------------------
+// Concurrent scrapes and measurements.  A child runs n scenarios: one exporter + registry + provider each, four
+// goroutines recording (counter, histogram, up-down counter, over three attribute sets; an observable gauge is registered
+// as well) while three goroutines call Registry.Gather 15 times each; afterwards one more scrape must expose exactly
+// what was recorded.  In the thorough tier the child is a -race build: a DATA RACE report (exit code 66) is a violation.
+// ---------------------------------------------------------------------------
+
+type ConcObs struct {
+	ID         int    `json:"id"`
+	Start      bool   `json:"start,omitempty"`
+	GatherErrs int    `json:"gather_errors"`
+	FirstErr   string `json:"first_error,omitempty"`
+	Expected   int64  `json:"expected_total"`
+	Exposed    int64  `json:"exposed_total"`
+	HistCount  uint64 `json:"exposed_histogram_count"`
+	Panic      string `json:"panic,omitempty"`
+}
+
+func concurrentScenario(id int, r *vgen.Rand) (ob ConcObs) {
+	ob.ID = id
+	defer func() {
+		if e := recover(); e != nil {
+			ob.Panic = fmt.Sprint(e)
+		}
+	}()
+	ctx := context.Background()
+	reg := prometheus.NewRegistry()
+	opts := []otelprom.Option{otelprom.WithRegisterer(reg)}
+	if r.Bool() {
+		opts = append(opts, otelprom.WithoutScopeInfo())
+	}
+	if r.Bool() {
+		opts = append(opts, otelprom.WithoutTargetInfo())
+	}
+	if r.Bool() {
+		opts = append(opts, otelprom.WithNamespace("ns"))
+	}
+	exp, err := otelprom.New(opts...)
+	if err != nil {
+		ob.Panic = "New: " + err.Error()
+		return
+	}
+	mp := sdk.NewMeterProvider(sdk.WithReader(exp), sdk.WithResource(resource.NewSchemaless(attribute.String("service.name", "svc"), attribute.String("a.b", "x"), attribute.String("a_b", "y"))))
+	defer mp.Shutdown(ctx)
+	m := mp.Meter("conc", metric.WithInstrumentationVersion("v1"), metric.WithInstrumentationAttributes(attribute.Int("shard", id)))
+	c, _ := m.Int64Counter("conc.requests", metric.WithUnit("1"))
+	h, _ := m.Float64Histogram("conc.latency", metric.WithUnit("ms"))
+	u, _ := m.Int64UpDownCounter("conc.inflight")
+	var obsv atomic.Int64
+	m.Int64ObservableGauge("conc.gauge", metric.WithInt64Callback(func(_ context.Context, o metric.Int64Observer) error {
+		o.Observe(obsv.Load(), metric.WithAttributes(attribute.String("k", "v")))
+		return nil
+	}))
+	sets := []attribute.Set{attribute.NewSet(), attribute.NewSet(attribute.String("a.b", "1"), attribute.String("a_b", "2")), attribute.NewSet(attribute.Int("zid", 1))}
+	const writers, iters, scrapers, scrapes = 4, 300, 3, 15
+	var wg sync.WaitGroup
+	var mu sync.Mutex
+	for g := 0; g < writers; g++ {
+		wg.Add(1)
+		go func(g int) {
+			defer wg.Done()
+			for i := 0; i < iters; i++ {
+				set := sets[(g+i)%len(sets)]
+				c.Add(ctx, 1, metric.WithAttributeSet(set))
+				h.Record(ctx, float64(i%7), metric.WithAttributeSet(set))
+				u.Add(ctx, int64(1-2*(i%2)), metric.WithAttributeSet(set))
+				obsv.Add(1)
+			}
+		}(g)
+	}
+	for g := 0; g < scrapers; g++ {
+		wg.Add(1)
+		go func() {
+			defer wg.Done()
+			for i := 0; i < scrapes; i++ {
+				if _, gerr := reg.Gather(); gerr != nil {
+					mu.Lock()
+					ob.GatherErrs++
+					if ob.FirstErr == "" {
+						ob.FirstErr = gerr.Error()
+					}
+					mu.Unlock()
+				}
+			}
+		}()
+	}
+	wg.Wait()
+	ob.Expected = writers * iters
+	mfs, gerr := reg.Gather()
+	if gerr != nil {
+		ob.GatherErrs++
+		if ob.FirstErr == "" {
+			ob.FirstErr = gerr.Error()
+		}
+	}
+	for _, mf := range mfs {
+		for _, mm := range mf.GetMetric() {
+			if mm.Counter != nil && strings.Contains(mf.GetName(), "conc") {
+				ob.Exposed += int64(mm.GetCounter().GetValue())
+			}
+			if mm.Histogram != nil {
+				ob.HistCount += mm.GetHistogram().GetSampleCount()
+			}
+		}
+	}
+	return
+}
+
+func concurrentChild(scheme string, n int, seed uint64, out string) {
+	if scheme == "legacy" {
+		model.NameValidationScheme = model.LegacyValidation //nolint:staticcheck // the scheme under test
+	} else {
+		model.NameValidationScheme = model.UTF8Validation //nolint:staticcheck
+	}
+	otel.SetErrorHandler(otel.ErrorHandlerFunc(func(error) {}))
+	f, err := os.Create(out)
+	if err != nil {
+		fmt.Fprintln(os.Stderr, err)
+		os.Exit(3)
+	}
+	enc := json.NewEncoder(f)
+	r := vgen.NewRand(seed)
+	for i := 0; i < n; i++ {
+		enc.Encode(ConcObs{ID: i, Start: true})
+		f.Sync()
+		enc.Encode(concurrentScenario(i, r))
+	}
+	f.Close()
+}
+
+// buildRaceChild builds this harness with -race against the repository under test (thorough tier).  A failing build
+// (no race runtime, no cgo, ...) is not a verdict about /repo: the race pass is then skipped and counted as inconclusive.
+func buildRaceChild(work string) (string, string) {
+	root := os.Getenv("VERIF_ROOT")
+	if root == "" || work == "" {
+		return "", "VERIF_ROOT / work directory unknown"
+	}
+	bin := work + "/harness-race-child"
+	args := []string{"build", "-race", "-tags", "verif", "-o", bin}
+	if _, err := os.Stat(work + "/alt.mod"); err == nil {
+		args = append(args, "-modfile="+work+"/alt.mod")
+	}
+	args = append(args, "./cmd/C18")
+	ctx, cancel := context.WithTimeout(context.Background(), 25*time.Minute)
+	defer cancel()
+	cmd := exec.CommandContext(ctx, "go", args...)
+	cmd.Dir = root + "/harness"
+	cmd.Env = append(os.Environ(), "CGO_ENABLED=1")
+	if outb, err := cmd.CombinedOutput(); err != nil {
+		return "", tail(string(outb), 600) + " " + err.Error()
+	}
+	return bin, ""
+}
+
+// runConcurrent runs the concurrent scenarios in children of exe (one per scheme) and reports what they observed.
+func runConcurrent(w *vgen.Writer, exe, dir string, n int, seed uint64, race bool) {
+	for si, scheme := range []string{"legacy", "utf8"} {
+		out := fmt.Sprintf("%s/conc_%s.jsonl", dir, scheme)
+		ctx, cancel := context.WithTimeout(context.Background(), 30*time.Minute)
+		cmd := exec.CommandContext(ctx, exe, "-child", "-concurrent", fmt.Sprint(n), "-cseed", fmt.Sprint(seed+uint64(si)), "-scheme", scheme, "-outfile", out)
+		cmd.Env = append(os.Environ(), "GORACE=halt_on_error=1 exitcode=66")
+		outb, err := cmd.CombinedOutput()
+		timedOut := ctx.Err() != nil
+		cancel()
+		started, results := -1, 0
+		if f, e := os.Open(out); e == nil {
+			sc := bufio.NewScanner(f)
+			sc.Buffer(make([]byte, 1<<20), 16<<20)
+			for sc.Scan() {
+				var ob ConcObs
+				if json.Unmarshal(sc.Bytes(), &ob) != nil {
+					continue
+				}
+				if ob.Start {
+					started = ob.ID
+					continue
+				}
+				results++
+				desc := map[string]any{"concurrent_scenario": ob, "scheme": scheme, "race_build": race}
+				switch {
+				case ob.Panic != "":
+					w.Violation("panic during concurrent scrapes and measurements: "+ob.Panic, desc)
+				case ob.GatherErrs > 0:
+					w.Violation("Registry.Gather failed while measurements were being recorded: "+ob.FirstErr, desc)
+				case ob.Exposed != ob.Expected || ob.HistCount != uint64(ob.Expected):
+					w.Violation("after concurrent scrapes the exposed totals differ from what was recorded", desc)
+				}
+				w.Tally(fmt.Sprintf("concurrent-scrape+measure:race-build=%v", race))
+			}
+			f.Close()
+		}
+		os.Remove(out)
+		if err != nil {
+			desc := map[string]any{"scheme": scheme, "scenario_started": started, "race_build": race, "output": tail(string(outb), 3000)}
+			switch {
+			case strings.Contains(string(outb), "DATA RACE"):
+				w.Violation("DATA RACE reported by the race detector during concurrent scrapes and measurements", desc)
+			case timedOut:
+				w.Tally("inconclusive:concurrent-child-watchdog")
+			default:
+				w.Violation("the process died during concurrent scrapes and measurements: "+err.Error(), desc)
+			}
+		}
+		_ = results
+	}
+}
+
 func childMain(scheme, in, out string) {
 	if scheme == "legacy" {
 		model.NameValidationScheme = model.LegacyValidation //nolint:staticcheck // the scheme under test
@@ -1387,12 +1596,18 @@ func attrsCoq(kvs []KV, asRunes bool) string {
 func main() {
 	child := flag.Bool("child", false, "run as a scenario child")
 	scheme := flag.String("scheme", "legacy", "legacy|utf8 (child)")
+	concurrent := flag.Int("concurrent", 0, "child: run this many concurrent scrape + measure scenarios instead of a scenario file")
+	cseed := flag.Uint64("cseed", 1, "child: seed of the concurrent scenarios")
 	in := flag.String("in", "", "scenario file (child)")
 	outfile := flag.String("outfile", "", "observation file (child)")
 	// flags are parsed by vgen.ParseFlags for the parent; the child needs no -out
 	for _, a := range os.Args[1:] {
 		if a == "-child" {
 			flag.Parse()
+			if *concurrent > 0 {
+				concurrentChild(*scheme, *concurrent, *cseed, *outfile)
+				return
+			}
 			childMain(*scheme, *in, *outfile)
 			return
 		}
@@ -1472,6 +1687,18 @@ func main() {
 		}
 		emit(w, sc, ob)
 	}
+	// concurrent scrape + measure: always (crash freedom, consistent totals); in the thorough tier through a -race child
+	concExe, raceBuilt := exe, false
+	if o.Tier == "thorough" {
+		if bin, why := buildRaceChild(o.Out); bin != "" {
+			concExe, raceBuilt = bin, true
+		} else {
+			w.Tally("inconclusive:race-build-failed")
+			w.Extra["race_build_failure"] = why
+		}
+	}
+	runConcurrent(w, concExe, o.Out, o.Count(6, 40), o.Seed, raceBuilt)
+	w.Extra["race_pass"] = raceBuilt
 	if err := w.Flush(); err != nil {
 		fmt.Fprintln(os.Stderr, err)
 		os.Exit(2)
